@@ -101,7 +101,36 @@ impl<R: Read> GenomeIO<R> {
     }
 
     /// Read next contig preserving raw format (including newlines)
+    ///
+    /// Blank lines in front of a header and records without any sequence line are skipped;
+    /// only the end of the input ends the iteration.
     pub fn read_contig_raw(&mut self) -> io::Result<Option<(String, Contig)>> {
+        loop {
+            let (id, contig) = match self.read_record_raw()? {
+                Some(record) => record,
+                None => return Ok(None),
+            };
+
+            if id.is_empty() {
+                // Not a record: either blank lines, or sequence data that has no header
+                if contig.iter().any(|&c| c > 64) {
+                    return Err(io::Error::new(
+                        io::ErrorKind::InvalidData,
+                        "FASTA sequence data without a header line",
+                    ));
+                }
+                continue;
+            }
+            if contig.is_empty() {
+                continue;
+            }
+
+            return Ok(Some((id, contig)));
+        }
+    }
+
+    /// Read the next header line and everything up to the following header (or EOF)
+    fn read_record_raw(&mut self) -> io::Result<Option<(String, Contig)>> {
         let reader = match &mut self.reader {
             Some(r) => r,
             None => return Ok(None),
@@ -145,10 +174,6 @@ impl<R: Read> GenomeIO<R> {
 
             // Append sequence data
             contig.extend_from_slice(&self.buffer);
-        }
-
-        if id.is_empty() || contig.is_empty() {
-            return Ok(None);
         }
 
         Ok(Some((id, contig)))
